@@ -28,7 +28,7 @@ func (p *prng) intn(n int) int {
 	return int(p.next() % uint64(n))
 }
 func (p *prng) chance(num, den int) bool { return p.intn(den) < num }
-func pick[T any](p *prng, xs []T) T        { return xs[p.intn(len(xs))] }
+func pick[T any](p *prng, xs []T) T      { return xs[p.intn(len(xs))] }
 
 // ---------------------------------------------------------------- vocabulary
 
@@ -37,7 +37,9 @@ type genCtx struct {
 	w, h int
 }
 
-func in(class string, b []byte) Item { return Item{Kind: "in", Hex: hex.EncodeToString(b), Class: class} }
+func in(class string, b []byte) Item {
+	return Item{Kind: "in", Hex: hex.EncodeToString(b), Class: class}
+}
 
 var narrowRunes = []string{"a", "b", "x", "Z", "0", "~", "!", " ", "é", "ü", "ß", "€", "λ", "Ж", "→"}
 var wideRunes = []string{"🐹", "🎉", "中", "文", "한", "あ", "Ｗ"}
